@@ -84,9 +84,9 @@ func runC13(c *Ctx) {
 		c.GlobalNeverReassigned("C13-R2", "consensus/aquahash:maxUncles")
 		c.GlobalNeverReassigned("C13-R2", "consensus/aquahash:maxUnclesHF5")
 		// per-uncle rules: at the end of every iteration that continues the loop
-		un := `Block#0\.Uncles\(\)\[\(phi:rangeindex \+ 1\)\]`
+		un := `Block#0\.Uncles\(\)\[\(phi:rangeindex(~\d+)? \+ 1\)\]`
 		hash := un + `\.SetVersion\(ChainReader#0\.Config\(\)\.GetBlockVersion\(` + un + `\.Number\)\)`
-		legacy := `^phi:number <= 15000$` // historical main-net exceptions below block 15000 are consensus, frozen
+		legacy := `^phi:number(~\d+)? <= 15000$` // historical main-net exceptions below block 15000 are consensus, frozen
 		c.MustLoopBack("C13-R2", fn, `^Aquahash\.verifyHeader$`, []LitReq{
 			{Name: "uncle not seen before (unique)", Unless: legacy, Re: `^!mapset\.NewSet\(nil\)\.Contains\(.*\)$`},
 			{Name: "uncle is not an ancestor", Re: `^make\(map\[Hash\]Header\)\[` + hash + `\] == nil$`},
@@ -115,7 +115,7 @@ func runC13(c *Ctx) {
 		}
 		// ancestor window: the ancestor loop is bounded by 7
 		c.MustOnAccept("C13-R2", fn, -1, false, []LitReq{
-			{Name: "ancestor window is 7 generations", Unless: fake, Re: `^(phi:i >= 7|ChainReader#0\.GetBlock\(phi:parent, phi:number\) == nil)$`},
+			{Name: "ancestor window is 7 generations", Unless: fake, Re: `^(phi:i(~\d+)? >= 7|ChainReader#0\.GetBlock\(phi:parent(~\d+)?, phi:number(~\d+)?\) == nil)$`},
 		})
 	})
 	c.Min("C13-R2", 16)
